@@ -115,5 +115,20 @@ func judgeHang(m *mon.M, setup, dump string, client any, d *dlog) {
 		}
 	}
 	_ = dump
-	m.Inconclusive("dialogue did not finish within the watchdog but the system is not provably frozen inside the client (" + setup + ")")
+	var states []string
+	for _, g := range gs {
+		top := ""
+		if len(g.Frames) > 0 {
+			top = g.Frames[0]
+		}
+		states = append(states, g.State+"@"+top)
+	}
+	m.Inconclusive(fmt.Sprintf("dialogue did not finish within the watchdog but the system is not provably frozen inside the client (%s; frozen=%v; client=%v; goroutines=%v; trace tail=%v)", setup, frozen, client, states, tail(d.trace(1000), 12)))
+}
+
+func tail(l []string, n int) []string {
+	if len(l) > n {
+		return l[len(l)-n:]
+	}
+	return l
 }
